@@ -44,6 +44,7 @@ type flowParams struct {
 	PointOnly    []string            `json:"point_only"`     // preemptive part: sweep only points of these files
 	LateOpen     []string            `json:"late_open"`      // destinations whose Open gate sorts last (stays pending by default)
 	LateCommit   bool                `json:"late_commit"`    // store commits stay in flight until nothing else can run (exploration order)
+	LatePut      bool                `json:"late_put"`       // non-transactional store writes (pipeline status) stay in flight until nothing else can run
 	SiteWide     bool                `json:"site_wide"`      // preemptive part: hold every goroutine reaching the armed site
 	LateAckRecv  bool                `json:"late_ack_recv"`  // source plugins are slow to receive acks (exploration order)
 	GateDestOpen bool                `json:"gate_dest_open"` // destination Open calls are pending events with answers {ok, err}
@@ -91,6 +92,9 @@ func (p flowParams) name() string {
 	}
 	if p.LateCommit {
 		n += "/latecommit"
+	}
+	if p.LatePut {
+		n += "/lateput"
 	}
 	if p.SiteWide {
 		n += "/sitewide"
@@ -230,7 +234,7 @@ func flowScenario(p flowParams) verifkit.Scenario {
 				}})
 			}
 			procs.Add(fakes.ProcScript{Name: "pnew", OpenMenu: p.ProcOpenMenu})
-			st, err := stack.New(x.W, plugins, nil, stack.Options{Engine: engineOf(p.Engine), ProcPlugins: procs, PersisterBundle: p.Bundle, LateCommits: p.LateCommit, FaultCommits: p.Faults, FaultSets: p.Faults, Recovery: rec})
+			st, err := stack.New(x.W, plugins, nil, stack.Options{Engine: engineOf(p.Engine), ProcPlugins: procs, PersisterBundle: p.Bundle, LateCommits: p.LateCommit, LatePuts: p.LatePut, FaultCommits: p.Faults, FaultSets: p.Faults, Recovery: rec})
 			if err != nil {
 				panic(err)
 			}
